@@ -48,6 +48,7 @@ class Recorder:
         self.unmodelled = []      # writes to attributes that are not tracked cells
         self.sched = None
         self.active = True
+        self.track_config = False
         self.targets = set()      # id() of the shared fitter objects
         self.stacks = {}          # thread ident -> stack of fitter objects whose method is executing
         self.building = {}        # thread ident -> depth of _PolyHelper/SplineBasis constructors
@@ -90,6 +91,11 @@ def _tracked(rec, self, obj_kind):
 
 
 # reads of the lazily initialised fitter attributes, by source site (file, line): coverage of the static scan
+# CONFIGURATION attributes of a fitter: set by the constructor / the user, assumed constant during calls by the
+# models.  A store during a call is reported as an unmodelled shared write; with `track_config` every load and
+# store of them is also a yield point of the scheduler (dedicated family, no model comparison).
+CONFIG_ATTRS = {'_dtype': 'cfg_dtype', '_check_finite': 'cfg_finite', '_banded_solver': 'cfg_solver',
+                '_pentapy_solver': 'cfg_penta', '_sort_order': 'cfg_sort', '_inverted_order': 'cfg_inv'}
 LAZY_ATTRS = {'x', 'z', '_size', '_shape', 'x_domain', 'z_domain', '_validated_x', '_validated_z'}
 COVER = set()
 
@@ -105,6 +111,8 @@ def _mk_get(orig, cells, obj_kind):
                 COVER.add((fr.f_code.co_filename, fr.f_lineno, name))
             if name in cells and _tracked(rec, self, obj_kind):
                 rec.access('R', obj_kind, cells[name])
+            elif is_fit and rec.track_config and name in CONFIG_ATTRS and id(self) in rec.targets and rec.active:
+                rec.access('R', 'cfg', CONFIG_ATTRS[name])
         return orig(self, name)
     return __getattribute__
 
@@ -120,6 +128,8 @@ def _mk_set(orig, cells, obj_kind, forward):
                     rec.access('W', obj_kind, cells[name])
             elif name not in forward and _tracked(rec, self, obj_kind):
                 rec.unmodelled.append((obj_kind, name))
+                if rec.track_config and name in CONFIG_ATTRS:
+                    rec.access('W', 'cfg', CONFIG_ATTRS[name])
         return orig(self, name, value)
     return __setattr__
 
@@ -351,9 +361,10 @@ class Scheduler:
         return self.results
 
 
-def run_solo(fn, targets):
+def run_solo(fn, targets, track_config=False):
     """Runs fn() under instrumentation in the calling thread; returns (result, events, unmodelled)."""
     with Instrument(targets) as ins:
+        ins.rec.track_config = track_config
         try:
             with warnings.catch_warnings():
                 warnings.simplefilter('ignore')
@@ -364,11 +375,12 @@ def run_solo(fn, targets):
         return res, ev, list(ins.rec.unmodelled)
 
 
-def run_concurrent(targets, jobs, schedule, timeout=STEP_TIMEOUT):
+def run_concurrent(targets, jobs, schedule, timeout=STEP_TIMEOUT, track_config=False):
     """Runs the jobs in real threads under the deterministic scheduler.
     Returns dict(results, logs (per thread index, accesses only), executed, unmodelled)."""
     with Instrument(targets) as ins:
         sch = Scheduler(ins.rec, jobs, schedule, timeout=timeout)
+        ins.rec.track_config = track_config
         ins.rec.sched = sch
         try:
             results = sch.run()
